@@ -1,0 +1,132 @@
+//go:build verif
+
+// Contracts for the govc verifier (see /verif/DESIGN.md). Comment-only file.
+package ringz
+
+//@ spec ringOK(r ref) bool = r.cap > 0 && len(r.values) == r.cap && ((r.head == -1 && r.tail == -1) || (0 <= r.head && r.head < r.cap && 0 <= r.tail && r.tail < r.cap))
+//@ spec rlen(r ref) int = ite(r.head == -1, 0, ite(r.head <= r.tail, r.tail - r.head + 1, r.cap - r.head + r.tail + 1))
+//@ spec rpos(r ref, k int) int = ite(r.head + k < r.cap, r.head + k, r.head + k - r.cap)
+//@ spec relem(r ref, k int) T = r.values[rpos(r, k)]
+
+//@ func Ring.Init
+//@   panics_if cap <= 0
+//@   modifies *r
+//@   ensures ringOK(r) && rlen(r) == 0 && r.cap == cap && fresh(r.values)
+
+//@ func Ring.IsEmpty
+//@   inline
+//@ func Ring.IsFull
+//@   inline
+//@ func Ring.Cap
+//@   inline
+
+//@ func Ring.Len
+//@   requires ringOK(r)
+//@   ensures result == rlen(r)
+
+//@ func Ring.Push
+//@   requires ringOK(r)
+//@   modifies r.head, r.tail, r.values[0:r.cap]
+//@   ensures ringOK(r)
+//@   ensures result == (old(rlen(r)) < r.cap)
+//@   ensures result ==> rlen(r) == old(rlen(r)) + 1 && relem(r, old(rlen(r))) == value
+//@   ensures result ==> forall k in 0..old(rlen(r)): relem(r, k) == old(relem(r, k))
+//@   ensures !result ==> r.head == old(r.head) && r.tail == old(r.tail) && forall k in 0..r.cap: r.values[k] == old(r.values[k])
+
+//@ func Ring.Pop
+//@   requires ringOK(r)
+//@   modifies r.head, r.tail, r.values[0:r.cap]
+//@   ensures ringOK(r)
+//@   ensures result2 == (old(rlen(r)) > 0)
+//@   ensures result2 ==> result1 == old(relem(r, 0)) && rlen(r) == old(rlen(r)) - 1
+//@   ensures result2 ==> forall k in 0..rlen(r): relem(r, k) == old(relem(r, k+1))
+//@   ensures !result2 ==> r.head == old(r.head) && r.tail == old(r.tail)
+
+//@ func Ring.Peek
+//@   requires ringOK(r)
+//@   ensures result2 == (rlen(r) > 0)
+//@   ensures result2 ==> result1 == relem(r, 0)
+
+//@ func Ring.Recap
+//@   requires ringOK(r)
+//@   modifies *r
+//@   ensures result == (cap > 0 && cap != old(r.cap) && cap >= old(rlen(r)))
+//@   ensures ringOK(r)
+//@   ensures result ==> r.cap == cap && rlen(r) == old(rlen(r)) && fresh(r.values)
+//@   ensures result ==> forall k in 0..rlen(r): relem(r, k) == old(relem(r, k))
+//@   ensures !result ==> r.cap == old(r.cap) && r.head == old(r.head) && r.tail == old(r.tail) && sameSlice(r.values, old(r.values))
+
+//@ func Ring.PushWithExpand
+//@   nomerge
+//@   requires ringOK(r) && r.cap < (1 << 40)
+//@   modifies *r, r.values[0:r.cap]
+//@   ensures ringOK(r) && rlen(r) == old(rlen(r)) + 1 && relem(r, old(rlen(r))) == value
+//@   ensures forall k in 0..old(rlen(r)): relem(r, k) == old(relem(r, k))
+//@   ensures r.cap == ite(old(rlen(r)) == old(r.cap), 2*old(r.cap), old(r.cap))
+
+//@ func New
+//@   panics_if cap <= 0
+//@   ensures result.cap == cap && result.head == -1 && result.tail == -1 && len(result.values) == cap
+
+// ---- SyncRing, sequential semantics (C10); uint32 counters are integers modulo 2^32 ----
+
+//@ spec srCount(r ref) int = (r.tail - r.head + 4294967296) % 4294967296
+//@ spec srD(r ref, i int) int = (i - r.head) % r.cap
+//@ spec srShape(r ref) bool = r.cap >= 2 && r.cap <= 2147483648 && ispow2(r.cap) && r.mask == r.cap - 1 && len(r.values) == r.cap && srCount(r) <= r.cap
+//@ spec srSlots(r ref) bool = forall i in 0..r.cap: r.values[i].pos == (r.head + srD(r, i) + ite(srD(r, i) < srCount(r), 1, 0)) % 4294967296
+//@ spec srOK(r ref) bool = srShape(r) && srSlots(r)
+//@ spec srElem(r ref, k int) T = r.values[(r.head + k) % r.cap].value
+
+//@ func roundupPowOfTwo
+//@   requires 0 < x && x < 2147483648
+//@   ensures ispow2(result) && x < result && result <= 2*x
+//@   loop 1:
+//@     unroll 33
+
+//@ func SyncRing.Len
+//@   requires srOK(r)
+//@   split r.cap pow2 1 31
+//@   ensures result == srCount(r)
+//@ func SyncRing.IsEmpty
+//@   requires srOK(r)
+//@   ensures result == (srCount(r) == 0)
+//@ func SyncRing.IsFull
+//@   requires srOK(r)
+//@   ensures result == (srCount(r) == r.cap)
+//@ func SyncRing.Cap
+//@   inline
+
+//@ func SyncRing.Push
+//@   requires srOK(r)
+//@   split r.cap pow2 1 31
+//@   modifies r.tail, r.values[0:r.cap]
+//@   ensures srOK(r) && r.head == old(r.head)
+//@   ensures result == (old(srCount(r)) < r.cap)
+//@   ensures result ==> srCount(r) == old(srCount(r)) + 1 && srElem(r, old(srCount(r))) == value
+//@   ensures result ==> forall k in 0..old(srCount(r)): srElem(r, k) == old(srElem(r, k))
+//@   ensures !result ==> r.tail == old(r.tail) && forall k in 0..srCount(r): srElem(r, k) == old(srElem(r, k))
+
+//@ func SyncRing.Pop
+//@   requires srOK(r)
+//@   split r.cap pow2 1 31
+//@   modifies r.head, r.values[0:r.cap]
+//@   ensures srOK(r) && r.tail == old(r.tail)
+//@   ensures result2 == (old(srCount(r)) > 0)
+//@   ensures result2 ==> result1 == old(srElem(r, 0)) && srCount(r) == old(srCount(r)) - 1
+//@   ensures result2 ==> forall k in 0..srCount(r): srElem(r, k) == old(srElem(r, k+1))
+//@   ensures !result2 ==> r.head == old(r.head) && forall k in 0..srCount(r): srElem(r, k) == old(srElem(r, k))
+
+//@ func SyncRing.Init
+//@   panics_if cap <= 0 || cap > 2147483648
+//@   modifies *r
+//@   ensures r.cap >= 2 && ispow2(r.cap) && r.cap >= cap && (r.cap == 2 || r.cap < 2*cap) && r.mask == r.cap - 1
+//@   ensures r.head == old(r.head) && r.tail == old(r.tail) && len(r.values) == r.cap && fresh(r.values)
+//@   ensures forall k in 0..r.cap: r.values[k].pos == k
+//@   loop 1:
+//@     invariant forall k in 0..i: r.values[k].pos == k
+//@     decreases len(r.values) - i
+
+//@ func NewSync
+//@   panics_if cap <= 0 || cap > 2147483648
+//@   ensures srOK(result) && srCount(result) == 0
+//@   ensures result.cap >= 2 && ispow2(result.cap) && result.cap >= cap && (result.cap == 2 || result.cap < 2*cap)
